@@ -152,7 +152,7 @@ type termSpec struct {
 
 func (t termSpec) String() string {
 	switch t.kind {
-	case "chunk", "last":
+	case "chunk", "last", "runsHead":
 		return fmt.Sprintf("%s(%d)", t.kind, t.n)
 	case "peek":
 		return fmt.Sprintf("peek(%08b)", t.n)
@@ -173,6 +173,8 @@ func (t termSpec) refEvents(in []int) []int {
 		return evGroups(refChunk(in, t.n))
 	case "runs":
 		return evRuns(refRuns(in, sameFn))
+	case "runsHead":
+		return evRunHeads(refRuns(in, sameFn), t.n)
 	}
 	panic("refEvents of " + t.kind)
 }
@@ -239,6 +241,43 @@ func (s *runsStepper) step(ctx context.Context) ([]int, error) {
 }
 func (s *runsStepper) close() { s.outer.Close() }
 
+// runsHeadStepper does NOT drain the inner streams: it takes the first j items of each run (fewer
+// if the run ends first) and then asks the outer stream for the next run, leaving it to the outer
+// stream to skip the rest - which the library implements. It never closes an inner stream itself.
+// A failed call is repeated on the same stream.
+type runsHeadStepper struct {
+	outer     stream.Stream[stream.Stream[int]]
+	cur       stream.Stream[int]
+	j, taken  int
+	needOuter bool
+}
+
+func (s *runsHeadStepper) step(ctx context.Context) ([]int, error) {
+	if s.needOuter {
+		in, err := s.outer.Next(ctx)
+		if err != nil {
+			return nil, err
+		}
+		s.cur, s.taken = in, 0
+		s.needOuter = s.j == 0
+		return []int{evNewRun}, nil
+	}
+	x, err := s.cur.Next(ctx)
+	if err == stream.End {
+		s.needOuter = true
+		return []int{evEndRun}, nil
+	}
+	if err != nil {
+		return nil, err
+	}
+	s.taken++
+	if s.taken == s.j {
+		s.needOuter = true
+	}
+	return []int{x}, nil
+}
+func (s *runsHeadStepper) close() { s.outer.Close() }
+
 // peekStepper mixes Peek and Next by a fixed bit pattern. Only Next results are output events; a
 // Peek must agree with the Next that follows it (and with an earlier Peek of the same item).
 type peekStepper struct {
@@ -288,6 +327,8 @@ func (t termSpec) stepper(s stream.Stream[int]) stepper {
 		return &sliceStepper{stream.Chunk(s, t.n)}
 	case "runs":
 		return &runsStepper{outer: stream.Runs(s, sameFn)}
+	case "runsHead":
+		return &runsHeadStepper{outer: stream.Runs(s, sameFn), j: t.n, needOuter: true}
 	case "peek":
 		return &peekStepper{s: stream.WithPeek(s), pattern: t.n}
 	}
@@ -438,6 +479,11 @@ func seqSubjects() []*subjectSpec {
 		S(laySingle, 1, tm("ints"), st("map")),
 		S(laySingle, 1, tm("runs")),
 		S(laySingle, 1, tm("ints"), st("runsFlat")),
+		S(laySingle, 1, tm("runsHead", 0)),
+		S(laySingle, 1, tm("runsHead", 1)),
+		S(laySingle, 1, tm("runsHead", 2)),
+		S(layJoin, 2, tm("runsHead", 1), st("map")),
+		S(laySingle, 1, tm("runsHead", 0), st("peek")),
 		S(laySingle, 1, tm("ints"), st("while")),
 		S(laySingle, 1, tm("peek", 0b01010101)),
 		S(laySingle, 1, tm("peek", 0b00110111)),
